@@ -132,6 +132,8 @@ class NpProxy:
             if _has_sym(x):
                 if isinstance(x, _np.ndarray):
                     return x.copy()
+                if isinstance(x, SymReal):
+                    return x            # np.array(scalar): a 0-d array behaves like the scalar in the arithmetic that follows
                 return _np.array(list(x), dtype=object)
         return _np.array(x, dtype=dtype, **k) if dtype is not None else _np.array(x, **k)
 
@@ -140,11 +142,11 @@ class NpProxy:
             return x if isinstance(x, _np.ndarray) else _np.array(list(x), dtype=object)
         return _np.asarray(x, dtype=dtype, **k) if dtype is not None else _np.asarray(x, **k)
 
-    def linspace(self, a, b, n, **k):
+    def linspace(self, a, b, n=50, **k):
         if _is_sym(a) or _is_sym(b):
             n = int(n)
             return _np.array([a + (b - a) * i / (n - 1) if n > 1 else a for i in range(n)], dtype=object)
-        return _np.linspace(a, b, n, **k)
+        return _np.linspace(a, b, n, **k) if "num" not in k else _np.linspace(a, b, **k)
 
     def append(self, a, b, *r, **k):
         if _has_sym(a) or _has_sym(b) or (self._symarray and self._active() and not r and not k):
